@@ -68,9 +68,21 @@ func genFailing(r *core.Rand, h *gen.Hist, cause string) *failStmt {
 	fs := &failStmt{cause: cause}
 	multi := func(bad func(row []proto.Val) []proto.Val) {
 		n := r.Range(1, 8)
+		if r.Chance(1, 8) {
+			// statements of hundreds of rows: whatever an implementation does
+			// per chunk of rows (validate, store, log) must still be undone or
+			// not begun when a row far down the list is the bad one
+			n = r.Range(129, 520)
+		}
 		k := r.Range(1, n)
 		if r.Chance(1, 4) {
 			k = 1
+		}
+		if n > 128 && r.Chance(1, 2) {
+			k = []int{129, 130, 257, n}[r.Intn(4)]
+			if k > n {
+				k = n
+			}
 		}
 		s := &proto.Stmt{Kind: "insert", Table: t.Name}
 		if r.Bool() {
@@ -282,7 +294,13 @@ func runC14(c *core.Ctx, drv string, idx int) {
 			t := h.DB.Table("fw")
 			ins := &proto.Stmt{Kind: "insert", Table: "fw"}
 			nrows := r.Range(2, 6)
+			if r.Chance(1, 6) {
+				nrows = r.Range(130, 300)
+			}
 			kth := r.Range(2, nrows)
+			if nrows > 128 {
+				kth = r.Range(129, nrows)
+			}
 			col := []string{"n", "b", "f"}[r.Intn(3)]
 			for i := 1; i <= nrows; i++ {
 				row := []proto.Val{proto.Int(int64(i)), proto.Int(1), proto.Null(), proto.Null(), proto.Null(), proto.Str("")}
@@ -310,7 +328,13 @@ func runC14(c *core.Ctx, drv string, idx int) {
 			add(proto.Op{K: "stmt", Stmt: ct}, meta{kind: "stmt", st: ct})
 			ins := &proto.Stmt{Kind: "insert", Table: "wn"}
 			nrows := r.Range(3, 12)
+			if r.Chance(1, 6) {
+				nrows = r.Range(130, 300)
+			}
 			kth := r.Range(2, nrows)
+			if nrows > 128 {
+				kth = r.Range(129, nrows)
+			}
 			for i := 1; i <= nrows; i++ {
 				row := []proto.Val{proto.Int(int64(i)), proto.Int(1), proto.Int(int64(10 * i)), proto.Str("v")}
 				if i == kth {
